@@ -31,11 +31,11 @@ def relayout(rng, lexemes):
     prev = None          # (text, ty) of the previous kept token if it directly precedes
     before_prev = 0
     last_kept = 0
-    style = rng.choice(["dense", "airy", "mixed"])
+    style = rng.choice(["dense", "airy", "mixed", "tight"])
 
     def sep(force):
         s = bytearray()
-        n = rng.choice([0, 0, 1]) if style == "dense" else rng.choice([1, 1, 2, 3]) if style == "airy" else rng.choice([0, 1, 1, 2])
+        n = 0 if style == "tight" else rng.choice([0, 0, 1]) if style == "dense" else rng.choice([1, 1, 2, 3]) if style == "airy" else rng.choice([0, 1, 1, 2])
         if force and n == 0:
             n = 1
         for _ in range(n):
@@ -147,6 +147,15 @@ def run(res, b, tier, seed):
     for r in rows[:60 if quick else 600]:
         progs.append(r["src"])                       # rejected and accepted near-miss programs
     progs.append('import (\n\t"strings"\n)\nx := 2\nswitch x {\ncase 2:\n\tprint(strings.Repeat("a", 2))\n}\nprint(x-1, x -1, x- 1, x - 1)\n')
+    # every binary operator after every kind of token that can end an operand (name, literals, closing round and square bracket), and
+    # signed literals after every operator: with blanks here, glued by the "tight" re-layouts (round 8: C12-A / C01-A, a minus sign in
+    # front of a digit after "]" or ")")
+    progs.append('nums := []int{10, 20, 30}\ns := "hello"\na := 7\nb := 2\nt := true\n'
+                 'print(nums[2] - 1, nums[0] - 5, len(s) - 1, (a + b) - 1, a - 1, 3 - 1, s[1:len(s) - 1], nums[b - 1] - nums[0])\n'
+                 'print(nums[2] + 1, (a) + 1, a + 1, 3 + 1, nums[1] * 2, (a) * 2, nums[1] / 2, (a) / 2, nums[1] % 7, (a) % 2)\n'
+                 'print(a * -1, a - -1, a + -1, a / -1, a % -2, a == -1, a < -1, a >= -1, a != -1, a <= -1, a > -1)\n'
+                 'print(nums[0] == 10, (a) == 7, nums[0] < 1, (a) < 1, nums[0] >= 1, (a) >= 1, s[0] == "h", "a" + "b" == "ab", t && !t, (t) || t)\n'
+                 'c := a - 1\nc -= 1\nc = -1\nc += -1\nnums[0] = -1\nnums[1] = nums[1] - 1\nprint(c, nums[0], nums[1], -1)\n')
     # every statement kind as the LAST statement of the file: the final line break must not matter for any of them
     END_FORMS = ["var e1 int", "var e1, e2 string", "var e1 int = 3", "var e1 = 3", "e1 := 4", "a0 = 5", "a0++", "a0 += 2", "print(a0)", "f0()",
                  "a0, b0 = b0, a0", "var e1 []int", "sl0[1] = 2", "if a0 > 0 {\n\tprint(1)\n}", "if a0 > 0 {\n\tprint(1)\n} else {\n\tprint(2)\n}",
@@ -181,6 +190,15 @@ def run(res, b, tier, seed):
                 cases.append(c)
                 members.append(c)
         groups.append(members)
+    # the program without statements in all its layouts: no byte at all, blanks, line breaks, comment-only lines (round 8: C12-B)
+    EMPTY_FORMS = [b"", b"\n", b"\n\n", b" ", b"\t\n", b"\r\n", b"  \n\t\n", b"// nothing to do\n", b"\n// nothing to do\n\n", b"/* nothing */", b"/* a */\n// b\n",
+                   b"\n\n\n\n", b" // c", b"/*\n\n*/\n"]
+    members = []
+    for j, v in enumerate(EMPTY_FORMS):
+        c = pipeline.Case("empty_%d" % j, {"main.tsh": v}, meta=dict(orig=j == 0, pi=-1))
+        cases.append(c)
+        members.append(c)
+    groups.append(members)
     pipeline.run_pipe(b, cases, "tsw")
     # correspondence: lexer model vs implementation on all layouts (tokens incl. positions)
     answers = pipeline.model_lines(b, ["LEX " + c.files["main.tsh"].hex() for c in cases])
@@ -204,8 +222,15 @@ def run(res, b, tier, seed):
             same = all((g[0] == o[0]) and (g[0] != "OK" or g[1] == o[1]) for g, o in zip(got, b0))
             if not same:
                 fails.append((base, c, b0, got))
+    # the same through the tsh COMMAND (the user's entry point): the program without statements in all its layouts, and a sample of
+    # the re-laid-out programs - the command must write what the library returns, for every layout
+    import cli
+    cli_cases = groups[-1] + [c for g in groups[:-1] for c in g[:2]][:30 if quick else 300]
+    cli_probs = common.pmap(lambda c: cli.compare_with_library(b, c), cli_cases)
+    cli_fails = [(c, pr_) for c, pr_ in zip(cli_cases, cli_probs) if pr_]
     res.coverage.update(dict(
         evaluations=len(cases),
+        layouts_through_the_command=len(cli_cases),
         distinct_nontrivial=len({c.files["main.tsh"] for c in cases}),
         rule="every program (repo test programs, builtin seeds, generated programs, accepted and rejected near-miss programs of the C06 table) is re-laid-out "
              "%d times from its lexeme trace: blanks/tabs/block comments between tokens (removed where gluing is safe), indentation, trailing blanks, line "
@@ -222,6 +247,11 @@ def run(res, b, tier, seed):
                                      original_hex=base.files["main.tsh"].hex(), relayout_hex=c.files["main.tsh"].hex(),
                                      original_classes=[x[0] for x in b0], relayout_classes=[x[0] for x in got],
                                      relayout_error=bytes.fromhex(got[0][1]).decode("utf-8", "replace") if got[0][0] == "ERR" else ""))
+    for c, probs in cli_fails[:3]:
+        res.violation("oracle", dict(what="the tsh command treats a layout differently from the library: " + "; ".join(probs),
+                                     source=c.files["main.tsh"].decode("latin1"), source_hex=c.files["main.tsh"].hex(),
+                                     invocation="tsh -i main.tsh -o out -t bash -t batch"))
+    fails = fails or cli_fails
     if not fails and (dis or not pr["ok"]):
         if dis:
             c, a, impl = dis[0]
